@@ -776,7 +776,11 @@ func (h *vfC15) restart() string {
 	state.db.Close()
 	state.cacheDB.Close()
 	state.db, state.cacheDB = nil, nil
-	if err := initDB(state); err != nil {
+	tlog := state.logger
+	state.logger = logger // BackgroundDBCopy keeps the logger it is started with (see vfNewState)
+	err := initDB(state)
+	state.logger = tlog
+	if err != nil {
 		return "err initDB"
 	}
 	state.dbDone <- struct{}{} // no background copy: every synchronisation is explicit
